@@ -263,3 +263,49 @@ Section Accessors.
     rewrite E. cbn [bind obs]. rewrite Hs. cbn [py_seq pr_seq mk_Seq]. now rewrite Hs1, Hs2.
   Qed.
 End Accessors.
+
+(* ---------- consequences used by the assembly refinement ------------------- *)
+
+Lemma bind_ok {A B} (x : exc A) (f : A -> exc B) r : bind x f = Ok r -> exists a, x = Ok a /\ f a = Ok r.
+Proof. destruct x; cbn; [eauto|discriminate]. Qed.
+
+Lemma obs_some x w : obs x = Some w -> exists r, x = Ok r /\ pr_seq r = w.
+Proof. destruct x; cbn; [intros H; inversion H; eauto|discriminate]. Qed.
+
+Lemma add_as_source_linear src dst : linear_kind dst -> linear_kind (py_add_as_source src dst).
+Proof. unfold linear_kind, py_add_as_source. cbn. auto. Qed.
+
+Lemma lshift_kind rec k r : is_CircularRecord rec = true -> pr_seq rec <> [] -> well_tracked rec ->
+  py_lshift rec k = Ok r -> pr_kind r = KCircularRecord.
+Proof.
+  intros Hc Hne Ht. unfold py_lshift. rewrite Hc.
+  destruct (CircularRecord_lshift_eq 0 rec k Hne Ht) as (r' & E & _ & _ & _ & Hk).
+  rewrite E. intros H. inversion H; subst. apply Hk.
+  unfold is_CircularRecord in Hc. destruct (pr_kind rec); congruence.
+Qed.
+
+Lemma module_target_kind e r : is_CircularRecord (ent_record e) = true -> pr_seq (ent_record e) <> [] ->
+  well_tracked (ent_record e) ->
+  AbstractModule_target_sequence e = Ok r -> pr_kind r = KSeqRecord.
+Proof.
+  intros Hc Hne Ht. unfold AbstractModule_target_sequence. intros H.
+  apply bind_ok in H. destruct H as ([a b] & _ & H).
+  apply bind_ok in H. destruct H as (t13 & H13 & H).
+  apply bind_ok in H. destruct H as (t14 & H14 & H). inversion H; subst.
+  pose proof (lshift_kind _ _ _ Hc Hne Ht H13) as K13.
+  destruct (getslice_circular t13 None (Some (b - a)) K13) as (r' & E & _ & Hk).
+  rewrite E in H14. inversion H14; subst. exact Hk.
+Qed.
+
+Lemma vector_target_kind e r : is_CircularRecord (ent_record e) = true -> pr_seq (ent_record e) <> [] ->
+  well_tracked (ent_record e) ->
+  AbstractVector_target_sequence e = Ok r -> pr_kind r = KSeqRecord.
+Proof.
+  intros Hc Hne Ht. unfold AbstractVector_target_sequence. intros H.
+  apply bind_ok in H. destruct H as ([a b] & _ & H).
+  apply bind_ok in H. destruct H as (t13 & H13 & H).
+  apply bind_ok in H. destruct H as (t14 & H14 & H). inversion H; subst.
+  pose proof (lshift_kind _ _ _ Hc Hne Ht H13) as K13.
+  destruct (getslice_circular t13 (Some (b - a)) None K13) as (r' & E & _ & Hk).
+  rewrite E in H14. inversion H14; subst. exact Hk.
+Qed.
